@@ -98,7 +98,11 @@ TCodeBase == /\ l <= Len(TraceLog) /\ Ev.e = "codebase"
              /\ Ev.size = (IF Ev.v2 THEN 384 ELSE 256)
              /\ l' = l + 1 /\ UNCHANGED <<ref, lenmax>>
 Init == l = 1 /\ ref = [reg |-> <<>>, fprc |-> 0, count |-> 0, writes |-> {}, whash |-> <<>>, nwrites |-> 0] /\ lenmax = <<0, 0>>
-Next == TOracleFirst \/ TDiffFirst \/ TFollow \/ TCodegen \/ TCodeLen \/ TCodeBase
+\* a program decoded through the per-instruction interface (possibly interleaved with the decoding of another program by a second decoder object)
+TDecode == /\ l <= Len(TraceLog) /\ Ev.e = "decode"
+           /\ Ev.targets = FoldLeft(LAMBDA acc, d : Append(acc, IF d.k = "CBRANCH" THEN d.target ELSE -2), <<>>, DecodeProgram(Ev.words))
+           /\ l' = l + 1 /\ UNCHANGED <<ref, lenmax>>
+Next == TOracleFirst \/ TDiffFirst \/ TFollow \/ TCodegen \/ TCodeLen \/ TCodeBase \/ TDecode
 Spec == Init /\ [][Next]_<<l, ref, lenmax>>
 Accepted == TLCGet("stats").diameter - 1 = Len(TraceLog)
 =============================================================================
